@@ -40,13 +40,19 @@ type c11Denom struct {
 	Channel string   // destination channel that yields this voucher
 	Pair    *c04Pair // nil: no pair registered at world creation
 	Std     bool
+	// Collides: 1 + index of the ONE-hop voucher of the same base denomination on the same destination channel (0 = none).
+	// Set for vouchers whose raw packet denomination already carries hops: the credited voucher is the hash of
+	// dstPort/dstChannel/ + the FULL raw denomination, a different asset from the one-hop voucher, which the recipient
+	// holds as a prior balance and which has a pool and a pair.  The observation's "unrelated denomination" slot then
+	// watches that one-hop voucher.
+	Collides int
 }
 
 const (
 	c11Users       = 3 // recipients U0..U2; the fourth C04 user is the bystander
 	c11SrcChannel  = "channel-9"
 	c11OtherDenom  = "aother"
-	c11NumDenoms   = 7
+	c11NumDenoms   = 9
 	c11ContractZ   = 7
 	c11MaxPoolCap  = 250
 	c11DeadlineSec = 4_000_000_000
@@ -54,6 +60,10 @@ const (
 
 // module accounts a packet may name as recipient; index 3 must be the erc20 module (Model/Onboarding.v M_erc20)
 var c11Modules = []string{coinswaptypes.ModuleName, authtypes.FeeCollectorName, distrtypes.ModuleName, erc20types.ModuleName}
+
+// module accounts stored in state under names the app's permission table (maccPerms) does not know — a leftover of a
+// removed module, or imported through genesis: codes M4, M5.  They are module accounts, but not on the bank's blocklist.
+var c11ForeignModules = []string{"recovery", "claims"}
 
 // whitelist entries / destination channels and their codes in the model
 var c11Channels = map[string]int64{"channel-0": 0, "channel-1": 1, "channel-5": 5, "channel-00": 100, "transfer": 101, "": 102}
@@ -89,6 +99,15 @@ func c11NewWorld() *c11World {
 	for _, m := range c11Modules {
 		a.AccountKeeper.GetModuleAccount(ctx, m) // creates the module account object when missing
 	}
+	for _, m := range c11ForeignModules {
+		if _, known := a.AccountKeeper.GetModulePermissions()[m]; known {
+			panic("module name " + m + " is known to the app")
+		}
+		a.AccountKeeper.SetAccount(ctx, a.AccountKeeper.NewAccount(ctx, authtypes.NewEmptyModuleAccount(m)))
+		if _, isMod := a.AccountKeeper.GetAccount(ctx, authtypes.NewModuleAddress(m)).(sdk.ModuleAccountI); !isMod {
+			panic("foreign module account not stored as a module account")
+		}
+	}
 	// module-owned pairs for two genuine vouchers
 	reg := func(denom, sym string) *c04Pair {
 		c04Must(a.BankKeeper.MintCoins(ctx, inflationtypes.ModuleName, sdk.Coins{sdk.NewInt64Coin(denom, 1)}))
@@ -108,6 +127,14 @@ func c11NewWorld() *c11World {
 		{Name: "home-malicious", Denom: w.pairs["delayed"].Denom, Base: w.pairs["delayed"].Denom, Pair: w.pairs["delayed"]},
 		{Name: "voucher-unregistered", Denom: c11VoucherDenom("channel-0", "unreg"), Voucher: true, Base: "unreg", Channel: "channel-0"},
 		{Name: "home-standard", Denom: std, Base: std, Std: true},
+		// vouchers of coins that had already travelled before they reached the counterparty: 1 and 2 extra hops
+		{Name: "voucher-ch0-two-hops", Denom: c11VoucherDenom("channel-0", "transfer/channel-7/uverif"), Voucher: true,
+			Base: "transfer/channel-7/uverif", Channel: "channel-0", Collides: 1 + 0},
+		{Name: "voucher-ch1-three-hops", Denom: c11VoucherDenom("channel-1", "transfer/channel-3/transfer/channel-7/uverif"), Voucher: true,
+			Base: "transfer/channel-3/transfer/channel-7/uverif", Channel: "channel-1", Collides: 1 + 1},
+	}
+	if len(w.denoms) != c11NumDenoms || w.denoms[7].Denom == v0 || w.denoms[8].Denom == v1 || w.denoms[7].Denom == w.denoms[8].Denom {
+		panic("denomination table")
 	}
 	sp := a.GetSubspace(onboardingtypes.ModuleName)
 	w.ok = onboardingkeeper.NewKeeper(sp, a.AccountKeeper, a.BankKeeper, a.IBCKeeper.ChannelKeeper, a.TransferKeeper, a.CoinswapKeeper, w.wk,
@@ -129,6 +156,9 @@ func (w *c11World) c11Rcpt(code string) sdk.AccAddress {
 	var i int
 	fmt.Sscan(code[1:], &i)
 	if code[0] == 'M' {
+		if i >= len(c11Modules) {
+			return authtypes.NewModuleAddress(c11ForeignModules[i-len(c11Modules)])
+		}
 		return authtypes.NewModuleAddress(c11Modules[i])
 	}
 	return sdk.AccAddress(w.users[i].Bytes())
@@ -232,7 +262,11 @@ func (w *c11World) c11Observe(ctx sdk.Context, rcpt sdk.AccAddress, d c11Denom) 
 		}
 		return w.a.BankKeeper.GetBalance(ctx, a, denom).Amount.BigInt()
 	}
-	o := c11Obs{Rstd: bal(rcpt, w.std), Rv: bal(rcpt, d.Denom), Rother: bal(rcpt, c11OtherDenom),
+	other := c11OtherDenom
+	if d.Collides > 0 {
+		other = w.denoms[d.Collides-1].Denom
+	}
+	o := c11Obs{Rstd: bal(rcpt, w.std), Rv: bal(rcpt, d.Denom), Rother: bal(rcpt, other),
 		Pstd: big.NewInt(0), Pv: big.NewInt(0),
 		Mv: bal(sdk.AccAddress(w.mod.Bytes()), d.Denom), Sup: w.a.BankKeeper.GetSupply(ctx, d.Denom).Amount.BigInt(),
 		Xstd: bal(w.bystander, w.std), Xv: bal(w.bystander, d.Denom),
